@@ -485,6 +485,15 @@ func (p *Project) addShapes(r *rand.Rand, o Opts) {
 		p.ExtraNew["twins/a/impl/impl.go"] = twin(false)
 		p.ExtraNew["twins/b/impl/impl.go"] = twin(false)
 	}
+	// a changed file whose comments and strings mention the configuration files of every alias used
+	// in the grids ("goat.yaml", "cov.yaml", "gcov.yaml"): text that looks like a use of the alias
+	if r.Intn(2) == 0 {
+		doc := func(k int) string {
+			return fmt.Sprintf("package l0\n\n// CfgDoc reads goat.yaml (or cov.yaml, gcov.yaml): see goat.Track in the docs.\nfunc CfgDoc(a int) string {\n\ta += %d\n\tif a > 100 {\n\t\treturn \"goat.yaml\"\n\t}\n\treturn \"cov.yaml gcov.yaml\"\n}\n", k)
+		}
+		p.ExtraOld["pkg/l0/zz_cfgdoc.go"] = doc(1)
+		p.ExtraNew["pkg/l0/zz_cfgdoc.go"] = doc(2)
+	}
 	hello := func(k int) string {
 		return fmt.Sprintf("package hello\n\n// Hello is example code.\nfunc Hello(a int) int {\n\ta += %d\n\treturn a\n}\n", k)
 	}
